@@ -124,6 +124,31 @@ MUTATIONS = [
     ('c01-pid-read-offset', 'C01', 'abacusnbody/data/compaso_halo_catalog.py', '            halo_packedpid = slab_packedpid[\n                slab_read_offsets[i] : slab_read_offsets[i] + slab_read_lens[i]\n            ]', '            halo_packedpid = slab_packedpid[\n                slab_write_offsets[i] - slab_write_offsets[0] : slab_write_offsets[i] - slab_write_offsets[0] + slab_read_lens[i]\n            ]'),
     ('c01-slab-index-parse', 'C01', 'abacusnbody/data/compaso_halo_catalog.py', "[int(hfn.stem.split('_')[-1]) for hfn in halo_fns]", "[int(hfn.stem.split('_')[-1]) % 10 for hfn in halo_fns]"),
     ('c01-npout-diff-dtype', 'C01', 'abacusnbody/data/compaso_halo_catalog.py', 'npstartAB_new[AB][:-1], name=f', 'npstartAB_new[AB][1:], name=f'),
+    # ---- C16
+    ('c16-no-truncation', 'C16', 'abacusnbody/data/read_abacus.py', '    table = table[:nread]  # truncate to amount actually read\n', ''),
+    ('c16-default-pid-adds-pos', 'C16', 'abacusnbody/data/read_abacus.py', "        if 'pid' in colname:\n            load += ['pid']", "        if 'pid' in colname:\n            load += ['pid', 'tagged']"),
+    ('c16-nread-min', 'C16', 'abacusnbody/data/read_abacus.py', "                velout=_velout,\n            )\n            nread = max(npos, nvel)\n        elif 'pid' in colname:", "                velout=_velout,\n            )\n            nread = min(npos, nvel)\n        elif 'pid' in colname:"),
+    ('c16-ambiguity-unchecked', 'C16', 'abacusnbody/data/read_abacus.py', "                    if colname is not None:\n                        raise ValueError(", "                    if False:\n                        raise ValueError("),
+    ('c16-pack9-write-index', 'C16', 'abacusnbody/data/pack9.py', '                velout[w, 0] = sh[3] * vscale', '                velout[i, 0] = sh[3] * vscale'),
+    ('c16-deprecated-flags', 'C16', 'abacusnbody/data/read_abacus.py', "            if load_vel or (load_vel is None and load_pos is False):", "            if load_vel or (load_vel is None):"),
+    ('c16-meta-dropped', 'C16', 'abacusnbody/data/read_abacus.py', "        table = Table(meta=header)", "        table = Table(meta={k: v for k, v in header.items() if k != 'ppd'})"),
+    ('c16-pid-kwargs', 'C16', 'abacusnbody/data/read_abacus.py', "for k in ('pid', 'lagr_pos', 'tagged', 'density', 'lagr_idx')\n            }", "for k in ('pid', 'lagr_pos', 'tagged', 'density')\n            }"),
+    # ---- C20
+    ('c20-late-field-validation', 'C20', 'abacusnbody/data/pipe_asdf.py', "    for af in afs:\n        for field in fields:\n            if field not in af.tree[data_key]:\n                raise ValueError(f'Field \"{field}\" not found in \"{af.uri}\"')\n", ''),
+    ('c20-late-file-validation', 'C20', 'abacusnbody/data/pipe_asdf.py', "    for fn in asdf_fns:\n        if not isfile(fn):\n            raise FileNotFoundError(fn)\n    afs = []\n    for fn in asdf_fns:\n        afs += [asdf.open(fn, mode='r', memmap=False, lazy_load=True)]\n", "    afs = []\n    for fn in asdf_fns:\n        if isfile(fn):\n            afs += [asdf.open(fn, mode='r', memmap=False, lazy_load=True)]\n"),
+    ('c20-header-order', 'C20', 'abacusnbody/data/pipe_asdf.py', '        pipe.write(N)\n        pipe.write(field_width)', '        pipe.write(field_width)\n        pipe.write(N)'),
+    ('c20-count-last-file', 'C20', 'abacusnbody/data/pipe_asdf.py', '            N += _N\n', '            N = np.int64(_N)\n'),
+    ('c20-count-rows', 'C20', 'abacusnbody/data/pipe_asdf.py', '_N = np.prod(af[data_key][field].shape)', '_N = af[data_key][field].shape[0]'),
+    ('c20-width-int64', 'C20', 'abacusnbody/data/pipe_asdf.py', 'field_width = np.int32(af[data_key][field].dtype.itemsize)', 'field_width = np.int64(af[data_key][field].dtype.itemsize)'),
+    ('c20-file-order-reversed', 'C20', 'abacusnbody/data/pipe_asdf.py', '        for af in afs:\n            read_start_time = timer()', '        for af in afs[::-1]:\n            read_start_time = timer()'),
+    # ---- C12
+    ('c12-randoms-not-permuted', 'C12', 'abacusnbody/hod/abacus_hod.py', '            hrandoms = hrandoms[sortind]\n', ''),
+    ('c12-rvir-not-permuted', 'C12', 'abacusnbody/hod/abacus_hod.py', '            hrvir = hrvir[sortind]\n', ''),
+    ('c12-shear-not-permuted', 'C12', 'abacusnbody/hod/abacus_hod.py', '            if self.want_shear:\n                hshear = hshear[sortind]\n', ''),
+    ('c12-ticker-off', 'C12', 'abacusnbody/hod/abacus_hod.py', '            hc[halo_ticker : halo_ticker + Nhalos[eslab - start]] = halo_c', '            hc[halo_ticker : halo_ticker + Nhalos[eslab - start]] = halo_c[::-1]'),
+    ('c12-pinds-unsorted-search', 'C12', 'abacusnbody/hod/abacus_hod.py', '        pinds = _searchsorted_parallel(hid, phid)', '        pinds = _searchsorted_parallel(hid, phid + 1)'),
+    ('c12-no-sort', 'C12', 'abacusnbody/hod/abacus_hod.py', '        if not np.all(hid[:-1] <= hid[1:]):', '        if False and not np.all(hid[:-1] <= hid[1:]):'),
+    ('c12-particle-field-swap', 'C12', 'abacusnbody/hod/abacus_hod.py', "                part_deltac = subsample['halo_deltac']\n                    part_fenv = subsample['halo_fenv']", "                part_deltac = subsample['halo_fenv']\n                    part_fenv = subsample['halo_deltac']"),
     # ---- C17
     ('c17-shared-histogram', 'C17', 'abacusnbody/analysis/tsc.py',
      'counts[t, keys[i]] += 1', 'counts[0, keys[i]] += 1'),
